@@ -305,25 +305,28 @@ func cmdFlags() {
 			first("const", fmt.Sprintf("name=%s real=%02x want=%02x", c.name, uint8(c.got), c.want))
 		}
 	}
+	// the WHOLE domain: every mask x every F x every A (2^24 states), with the other register pairs holding marker values
 	for m := 0; m < 256; m++ {
 		for f := 0; f < 256; f++ {
-			a := uint8((m*7 + f*13 + 5) % 256)
-			g := z80.GPR{AF: z80.Register{Hi: a, Lo: uint8(f)}, BC: z80.Register{Hi: 0x12, Lo: 0x34}}
-			if got, want := g.GetFlag(z80.Flag(m)), uint8(f)&uint8(m) != 0; got != want {
-				first("get", fmt.Sprintf("mask=%02x F=%02x real=%v want=%v", m, f, got, want))
-			}
-			if g.AF.Hi != a || g.AF.Lo != uint8(f) {
-				first("get", fmt.Sprintf("mask=%02x F=%02x GetFlag altered AF", m, f))
-			}
-			s := g
-			s.SetFlag(z80.Flag(m))
-			if s.AF.Lo != uint8(f)|uint8(m) || s.AF.Hi != a || s.BC != g.BC {
-				first("set", fmt.Sprintf("mask=%02x F=%02x A=%02x real=F:%02x,A:%02x want=F:%02x,A:%02x", m, f, a, s.AF.Lo, s.AF.Hi, uint8(f)|uint8(m), a))
-			}
-			s = g
-			s.ResetFlag(z80.Flag(m))
-			if s.AF.Lo != uint8(f)&^uint8(m) || s.AF.Hi != a || s.BC != g.BC {
-				first("reset", fmt.Sprintf("mask=%02x F=%02x A=%02x real=F:%02x,A:%02x want=F:%02x,A:%02x", m, f, a, s.AF.Lo, s.AF.Hi, uint8(f)&^uint8(m), a))
+			for ai := 0; ai < 256; ai++ {
+				a := uint8(ai)
+				g := z80.GPR{AF: z80.Register{Hi: a, Lo: uint8(f)}, BC: z80.Register{Hi: 0x12, Lo: 0x34}, DE: z80.Register{Hi: 0x56, Lo: 0x78}, HL: z80.Register{Hi: 0x9a, Lo: 0xbc}}
+				if got, want := g.GetFlag(z80.Flag(m)), uint8(f)&uint8(m) != 0; got != want {
+					first("get", fmt.Sprintf("mask=%02x F=%02x A=%02x real=%v want=%v", m, f, a, got, want))
+				}
+				if g.AF.Hi != a || g.AF.Lo != uint8(f) {
+					first("get", fmt.Sprintf("mask=%02x F=%02x A=%02x GetFlag altered AF", m, f, a))
+				}
+				s := g
+				s.SetFlag(z80.Flag(m))
+				if s.AF.Lo != uint8(f)|uint8(m) || s.AF.Hi != a || s.BC != g.BC || s.DE != g.DE || s.HL != g.HL {
+					first("set", fmt.Sprintf("mask=%02x F=%02x A=%02x real=F:%02x,A:%02x want=F:%02x,A:%02x", m, f, a, s.AF.Lo, s.AF.Hi, uint8(f)|uint8(m), a))
+				}
+				s = g
+				s.ResetFlag(z80.Flag(m))
+				if s.AF.Lo != uint8(f)&^uint8(m) || s.AF.Hi != a || s.BC != g.BC || s.DE != g.DE || s.HL != g.HL {
+					first("reset", fmt.Sprintf("mask=%02x F=%02x A=%02x real=F:%02x,A:%02x want=F:%02x,A:%02x", m, f, a, s.AF.Lo, s.AF.Hi, uint8(f)&^uint8(m), a))
+				}
 			}
 		}
 	}
@@ -334,7 +337,7 @@ func cmdFlags() {
 			first("u16", fmt.Sprintf("value=%04x real=U16:%04x,Hi:%02x,Lo:%02x", v, r.U16(), r.Hi, r.Lo))
 		}
 	}
-	fmt.Printf("done get=%d set=%d reset=%d u16=%d const=%d pairs=65536 values=65536\n", bad["get"], bad["set"], bad["reset"], bad["u16"], bad["const"])
+	fmt.Printf("done get=%d set=%d reset=%d u16=%d const=%d triples=16777216 values=65536\n", bad["get"], bad["set"], bad["reset"], bad["u16"], bad["const"])
 }
 
 // switchMem: NOP; JR -3 at 0100h (a two-instruction loop), until told to read as HALT everywhere
